@@ -12,8 +12,9 @@ and two C strings per header, the trusted-proxies configuration that is never re
 * Library primitives (`fromVec`, `intoVecDrop`, `toVec`, `cstrNew`, `boxNew`, `headerList`, …) are transcribed
   from the Rust functions in terms of heap operations, with capacity and length where the code depends on them.
 * `Call` is one step of a C caller; `step` executes it on `State` (= heap + the caller's slots) following the
-  entry point's code, and flags a violation of the CALLER PROTOCOL (a slot of the wrong kind, or used after it
-  was released / consumed) in `protocolOk`.  What the library computes *inside* an object (JSON, filtering) is
+  entry point's code, on whatever the slot holds (a released handle is a dangling pointer: using it produces
+  the faults the allocator would see).  `pre` is the CALLER PROTOCOL of the call: the slots it names exist, have
+  the type the entry point expects and have not been released / consumed.  What the library computes *inside* an object (JSON, filtering) is
   not modelled: the results the library computes (lengths of strings, produced bytes, NULL or not) are
   arguments of the call — the theorems hold for all of them, the correspondence supplies the observed ones.
 -/
@@ -34,6 +35,7 @@ inductive Fault where
   | unknownPtr (id : Nat)
   | sizeMismatch (id alloc dealloc : Nat)
   | useAfterFree (id : Nat)
+  | badHandle (slot : Nat)          -- a handle that does not exist / of another type was passed (type confusion)
 deriving DecidableEq, Repr
 
 structure Heap where
@@ -47,27 +49,33 @@ namespace Heap
 def alloc (h : Heap) (k : Kind) (size : Nat) : Heap × Nat :=
   ({ h with cells := h.cells ++ [⟨k, size, true⟩] }, h.cells.length)
 
-def kill (cells : List Cell) (id : Nat) : List Cell :=
-  cells.mapIdx fun i c => if i == id then { c with live := false } else c
+def kill : List Cell → Nat → List Cell
+  | [], _ => []
+  | c :: cs, 0 => { c with live := false } :: cs
+  | c :: cs, n + 1 => c :: kill cs n
 
 /-- `dealloc(ptr, Layout { size, .. })`. -/
 def dealloc (h : Heap) (id size : Nat) : Heap :=
   match h.cells[id]? with
   | none => { h with faults := h.faults ++ [.unknownPtr id] }
   | some c =>
-    if !c.live then { h with faults := h.faults ++ [.doubleFree id] }
-    else if c.size != size then
-      { cells := kill h.cells id, faults := h.faults ++ [.sizeMismatch id c.size size] }
-    else { h with cells := kill h.cells id }
+    if c.live = false then { h with faults := h.faults ++ [.doubleFree id] }
+    else if c.size = size then { h with cells := kill h.cells id }
+    else { cells := kill h.cells id, faults := h.faults ++ [.sizeMismatch id c.size size] }
 
 /-- a read or write through the pointer. -/
 def use (h : Heap) (id : Nat) : Heap :=
   match h.cells[id]? with
   | none => { h with faults := h.faults ++ [.unknownPtr id] }
-  | some c => if c.live then h else { h with faults := h.faults ++ [.useAfterFree id] }
+  | some c => if c.live = true then h else { h with faults := h.faults ++ [.useAfterFree id] }
 
-def liveIds (h : Heap) : List Nat :=
-  (h.cells.zipIdx.filter fun (c, _) => c.live).map (·.2)
+/-- `(id, size, kind)` of the live allocations from index `i` on. -/
+def liveFrom : Nat → List Cell → List (Nat × Nat × Kind)
+  | _, [] => []
+  | i, c :: cs => (if c.live then [(i, c.size, c.kind)] else []) ++ liveFrom (i + 1) cs
+
+/-- The live allocations: what a leak check at this point would report. -/
+def liveList (h : Heap) : List (Nat × Nat × Kind) := liveFrom 0 h.cells
 
 end Heap
 
@@ -86,7 +94,7 @@ deriving Repr
 /-- `Vec::with_capacity(cap)` filled with `bytes` (cap is raised to the length). -/
 def vecNew (h : Heap) (bytes : List Nat) (cap : Nat) : Heap × VecU8 :=
   let c := max cap bytes.length
-  if c == 0 then (h, ⟨none, 0, bytes⟩)
+  if c = 0 then (h, ⟨none, 0, bytes⟩)
   else
     let (h, id) := h.alloc .bytes c
     (h, ⟨some id, c, bytes⟩)
@@ -106,12 +114,12 @@ deriving Repr, DecidableEq
 /-- `Buffer::from_vec` (repaired): empty ⇒ default (the Vec is dropped); otherwise
 `Box::into_raw(vec.into_boxed_slice())` — `into_boxed_slice` reallocates to exactly `len` when capacity ≠ len. -/
 def fromVec (h : Heap) (v : VecU8) : Heap × Buffer :=
-  if v.bytes.isEmpty then (vecDrop h v, ⟨none, []⟩)
+  if v.bytes = [] then (vecDrop h v, ⟨none, []⟩)
   else
     match v.id with
     | none => (h, ⟨none, []⟩)                       -- unreachable: a non-empty Vec has an allocation
     | some id =>
-      if v.cap == v.bytes.length then (h, ⟨some id, v.bytes⟩)
+      if v.cap = v.bytes.length then (h, ⟨some id, v.bytes⟩)
       else
         -- realloc(ptr, Layout(cap), len): the old block is given back with its own size
         let h := h.dealloc id v.cap
@@ -120,21 +128,21 @@ def fromVec (h : Heap) (v : VecU8) : Heap × Buffer :=
 
 /-- `Buffer::from_vec` BEFORE the repair D15: `mem::forget(vec)` keeping capacity. -/
 def fromVecOld (h : Heap) (v : VecU8) : Heap × Buffer :=
-  if v.bytes.isEmpty then (vecDrop h v, ⟨none, []⟩) else (h, ⟨v.id, v.bytes⟩)
+  if v.bytes = [] then (vecDrop h v, ⟨none, []⟩) else (h, ⟨v.id, v.bytes⟩)
 
 /-- `Buffer::into_vec`: null or empty ⇒ `Vec::new()`; otherwise the boxed slice of `len` bytes becomes a Vec of
 capacity `len` over the same allocation. -/
 def intoVec (b : Buffer) : VecU8 :=
   match b.id with
   | none => ⟨none, 0, []⟩
-  | some id => if b.bytes.isEmpty then ⟨none, 0, []⟩ else ⟨some id, b.bytes.length, b.bytes⟩
+  | some id => if b.bytes = [] then ⟨none, 0, []⟩ else ⟨some id, b.bytes.length, b.bytes⟩
 
 /-- `Buffer::to_vec` (repaired D10): reads `len` bytes and copies them into a Vec of capacity `len`. -/
 def toVec (h : Heap) (b : Buffer) : Heap × VecU8 :=
   match b.id with
   | none => (h, ⟨none, 0, []⟩)
   | some id =>
-    if b.bytes.isEmpty then (h, ⟨none, 0, []⟩)
+    if b.bytes = [] then (h, ⟨none, 0, []⟩)
     else vecNew (h.use id) b.bytes b.bytes.length
 
 /-- `Buffer::duplicate` = `from_vec(to_vec())`. -/
@@ -193,8 +201,6 @@ deriving Repr
 structure State where
   heap : Heap := {}
   slots : List Slot := []
-  /-- false as soon as a call violated the caller protocol -/
-  protocolOk : Bool := true
 deriving Repr
 
 inductive Call where
@@ -221,18 +227,52 @@ deriving Repr
 
 def State.push (st : State) (h : Handle) : State := { st with slots := st.slots ++ [⟨h, false⟩] }
 
-def State.release (st : State) (s : Nat) : State :=
-  { st with slots := st.slots.mapIdx fun i sl => if i == s then { sl with released := true } else sl }
+def releaseAt : List Slot → Nat → List Slot
+  | [], _ => []
+  | sl :: rest, 0 => { sl with released := true } :: rest
+  | sl :: rest, n + 1 => sl :: releaseAt rest n
 
-def State.violate (st : State) : State := { st with protocolOk := false }
+def State.release (st : State) (s : Nat) : State := { st with slots := releaseAt st.slots s }
 
-/-- the slot, when it exists and has not been released / consumed -/
-def State.get (st : State) (s : Nat) : Option Handle :=
+/-- a call on a slot that does not exist or holds a handle of another type: type confusion -/
+def State.bad (st : State) (s : Nat) : State :=
+  { st with heap := { st.heap with faults := st.heap.faults ++ [.badHandle s] } }
+
+/-- the handle in a slot — whether or not the caller already released it (a released handle is a dangling pointer
+the caller can still pass) -/
+def State.get (st : State) (s : Nat) : Option Handle := (st.slots[s]?).map (·.h)
+
+/-- The CALLER PROTOCOL: the slot exists, holds a handle of the type the entry point expects, and has not been
+released (dropped, closed, or consumed by `body_filter_filter`). -/
+def State.holds (st : State) (s : Nat) (p : Handle → Bool) : Bool :=
   match st.slots[s]? with
-  | some sl => if sl.released then none else some sl.h
-  | none => none
+  | some sl => !sl.released && p sl.h
+  | none => false
 
-/-- One call, following the code of the entry point. -/
+def isBuffer : Handle → Bool | .buffer _ => true | _ => false
+def isCstr : Handle → Bool | .cstr _ _ => true | _ => false
+def isObj (k : Kind) : Handle → Bool | .obj k' _ => k' == k | _ => false
+def isHlist : Handle → Bool | .hlist _ => true | _ => false
+def isTproxies : Handle → Bool | .tproxies _ _ => true | _ => false
+
+def pre (st : State) : Call → Bool
+  | .bufNew _ _ => true
+  | .bufDup s | .bufRead s | .bufDrop s | .filterNull s => st.holds s isBuffer
+  | .objNew _ _ => true
+  | .objUse k s | .objSer k s _ | .objDrop k s => st.holds s (isObj k)
+  | .strNew _ => true
+  | .logJson r a _ => st.holds r (isObj .request) && (match a with | none => true | some a => st.holds a (isObj .action))
+  | .strFree s => st.holds s isCstr
+  | .headers a _ => st.holds a (isObj .action)
+  | .hlistFree s => st.holds s isHlist
+  | .filterNew a _ => st.holds a (isObj .action)
+  | .filterFeed f b _ => st.holds f (isObj .filter) && st.holds b isBuffer
+  | .filterClose f _ => st.holds f (isObj .filter)
+  | .tpNew => true
+  | .tpUse s => st.holds s isTproxies
+
+/-- One call, following the code of the entry point — on whatever the slot holds, released or not: a caller
+that breaks the protocol gets the faults the real allocator would see. -/
 def step (st : State) : Call → State
   | .bufNew bytes cap =>
     let (h, v) := vecNew st.heap bytes cap
@@ -243,23 +283,23 @@ def step (st : State) : Call → State
     | some (.buffer b) =>
       let (h, b') := duplicate st.heap b
       { st with heap := h }.push (.buffer b')
-    | _ => st.violate
+    | _ => st.bad s
   | .bufRead s =>
     match st.get s with
     | some (.buffer b) =>
       let (h, v) := toVec st.heap b
       { st with heap := vecDrop h v }
-    | _ => st.violate
+    | _ => st.bad s
   | .bufDrop s =>
     match st.get s with
     | some (.buffer b) => ({ st with heap := vecDrop st.heap (intoVec b) }).release s   -- buffer.into_vec(); dropped
-    | _ => st.violate
+    | _ => st.bad s
   | .filterNull s =>
     match st.get s with
     | some (.buffer b) =>
       let (h, b') := duplicate st.heap b                     -- if _filter.is_null() { return buffer.duplicate(); }
       { st with heap := h }.push (.buffer b')
-    | _ => st.violate
+    | _ => st.bad s
   | .objNew k ok =>
     if ok then
       let (h, id) := boxNew sz st.heap k
@@ -268,29 +308,29 @@ def step (st : State) : Call → State
   | .objUse k s =>
     match st.get s with
     | some (.obj k' id) =>
-      if k' != k then st.violate
+      if k' != k then st.bad s
       else match id with
         | none => st                                         -- null check, early return
         | some id => { st with heap := st.heap.use id }
-    | _ => st.violate
+    | _ => st.bad s
   | .objSer k s len =>
     match st.get s with
     | some (.obj k' id) =>
-      if k' != k then st.violate
+      if k' != k then st.bad s
       else match id with
         | none => st.push (.cstr none 0)
         | some id =>
           let (h, c) := cstrNew (st.heap.use id) len
           { st with heap := h }.push (.cstr (some c) len)
-    | _ => st.violate
+    | _ => st.bad s
   | .objDrop k s =>
     match st.get s with
     | some (.obj k' id) =>
-      if k' != k then st.violate
+      if k' != k then st.bad s
       else match id with
         | none => st.release s                               -- if p.is_null() { return }
         | some id => ({ st with heap := boxDrop sz st.heap k id }).release s
-    | _ => st.violate
+    | _ => st.bad s
   | .strNew len =>
     let (h, c) := cstrNew st.heap len
     { st with heap := h }.push (.cstr (some c) len)
@@ -313,15 +353,15 @@ def step (st : State) : Call → State
               | some aid => h.use aid
             let (h, c) := cstrNew h len
             { st with heap := h }.push (.cstr (some c) len)
-          | _ => st.violate
-    | _ => st.violate
+          | _ => st.bad a
+    | _ => st.bad r
   | .strFree s =>
     match st.get s with
     | some (.cstr id len) =>
       match id with
       | none => st.release s
       | some id => ({ st with heap := cstrFree st.heap id len }).release s
-    | _ => st.violate
+    | _ => st.bad s
   | .headers a out =>
     match st.get a with
     | some (.obj .action id) =>
@@ -330,11 +370,11 @@ def step (st : State) : Call → State
       | some id =>
         let (h, nodes) := headerList sz (st.heap.use id) out []
         { st with heap := h }.push (.hlist nodes)
-    | _ => st.violate
+    | _ => st.bad a
   | .hlistFree s =>
     match st.get s with
     | some (.hlist nodes) => ({ st with heap := headerListFree sz st.heap nodes }).release s
-    | _ => st.violate
+    | _ => st.bad s
   | .filterNew a ok =>
     match st.get a with
     | some (.obj .action id) =>
@@ -346,7 +386,7 @@ def step (st : State) : Call → State
           let (h, f) := boxNew sz h .filter
           { st with heap := h }.push (.obj .filter (some f))
         else { st with heap := h }.push (.obj .filter none)
-    | _ => st.violate
+    | _ => st.bad a
   | .filterFeed f b out =>
     match st.get f, st.get b with
     | some (.obj .filter fid), some (.buffer buf) =>
@@ -360,7 +400,7 @@ def step (st : State) : Call → State
         let (h, v) := vecNew h out out.length        -- capacity of the filter's Vec is not modelled (see fromVec)
         let (h, ob) := fromVec h v
         (({ st with heap := h }).release b).push (.buffer ob)
-    | _, _ => st.violate
+    | _, _ => st.bad f
   | .filterClose f out =>
     match st.get f with
     | some (.obj .filter fid) =>
@@ -371,7 +411,7 @@ def step (st : State) : Call → State
         let (h, v) := vecNew h out out.length
         let (h, ob) := fromVec h v
         (({ st with heap := h }).release f).push (.buffer ob)
-    | _ => st.violate
+    | _ => st.bad f
   | .tpNew =>
     let (h, inner) := boxNew sz st.heap .tconfig
     let (h, outer) := boxNew sz h .tproxies
@@ -379,20 +419,45 @@ def step (st : State) : Call → State
   | .tpUse s =>
     match st.get s with
     | some (.tproxies outer inner) => { st with heap := (st.heap.use outer).use inner }
-    | _ => st.violate
+    | _ => st.bad s
 
 def run (st : State) (calls : List Call) : State := calls.foldl (step sz) st
 
-/-- The caller followed the protocol: no call found a slot of the wrong kind, or one already released. -/
-def FollowsProtocol (calls : List Call) : Prop := (run sz {} calls).protocolOk = true
+/-- The caller follows the protocol from `st` on: every call finds the slots it names unreleased and of the
+right type, in the state the previous calls left. -/
+def Follows (st : State) : List Call → Prop
+  | [] => True
+  | c :: rest => pre st c = true ∧ Follows (step sz st c) rest
 
-/-- Every slot has been released (trusted proxies have no release function and never are). -/
+def FollowsProtocol (calls : List Call) : Prop := Follows sz {} calls
+
+/-- what a handle owns: `(allocation id, size it must be released with, kind)` -/
+def ownsNodes : List HNode → List (Nat × Nat × Kind)
+  | [] => []
+  | (node, (n, nl), (v, vl)) :: rest =>
+    [(n, nl + 1, Kind.cstr), (v, vl + 1, Kind.cstr), (node, sz .hnode, Kind.hnode)] ++ ownsNodes rest
+
+def owns : Handle → List (Nat × Nat × Kind)
+  | .buffer ⟨some id, bytes⟩ => if bytes = [] then [] else [(id, bytes.length, .bytes)]
+  | .buffer ⟨none, _⟩ => []
+  | .cstr (some id) len => [(id, len + 1, .cstr)]
+  | .cstr none _ => []
+  | .obj k (some id) => [(id, sz k, k)]
+  | .obj _ none => []
+  | .hlist nodes => ownsNodes sz nodes
+  | .tproxies o i => [(o, sz .tproxies, .tproxies), (i, sz .tconfig, .tconfig)]
+
+/-- everything the caller still holds -/
+def ownedSlots : List Slot → List (Nat × Nat × Kind)
+  | [] => []
+  | sl :: rest => (if sl.released then [] else owns sz sl.h) ++ ownedSlots rest
+
+/-- Every handle that has a release function has been released (trusted proxies have none). -/
 def AllReleased (st : State) : Prop :=
-  ∀ sl ∈ st.slots, sl.released = true ∨ (∃ o i, sl.h = .tproxies o i) ∨
-    sl.h = .buffer ⟨none, []⟩ ∨ (∃ k, sl.h = .obj k none) ∨ (∃ l, sl.h = .cstr none l)
+  ∀ sl ∈ st.slots, sl.released = true ∨ ∃ o i, sl.h = .tproxies o i
 
-/-- Allocations that are documented as never released: the trusted-proxies pair. -/
-def documentedLeak (c : Cell) : Bool := c.kind == .tproxies || c.kind == .tconfig
+/-- Allocations documented as never released: the trusted-proxies pair. -/
+def documentedLeak (c : Nat × Nat × Kind) : Bool := c.2.2 == .tproxies || c.2.2 == .tconfig
 
 end
 
